@@ -140,6 +140,8 @@ class Sim:
         # memory bound: after this many recorded slices the run continues WITHOUT further pre-emption - exactly what a
         # literal replay does when its slice list is exhausted, so the recorded schedule still replays the run
         self.max_slices = max_slices
+        self.record_where_task = None      # optional: function name at every pre-emption point of this task
+        self.where_log = []
         # faults: {(task, op_idx): {"at": event offset within op, "kind": "interrupt", "exc": "SimInterrupt"|"MemoryError"}}
         self.faults = {}
         for f in faults or []:
@@ -214,6 +216,8 @@ class Sim:
         self.events += 1
         t.op_events += 1
         self.cur_run += 1
+        if t.idx == self.record_where_task:
+            self.where_log.append(t.where[0])
         if t.op_events > self.event_budget:
             raise BudgetExceeded("events")
         a = t.armed
@@ -303,6 +307,8 @@ class Sim:
         """operation boundary: a scheduling point (never a fault point)"""
         self.events += 1
         self.cur_run += 1
+        if t.idx == self.record_where_task:
+            self.where_log.append("<boundary>")
         self.slice_left -= 1
         if self.slice_left <= 0:
             self._switch(t)
